@@ -90,7 +90,9 @@ class Program:
             def scan(body):
                 for st in body:
                     if isinstance(st, (ast.FunctionDef, ast.ClassDef)):
-                        defs.setdefault(st.name, st)
+                        if isinstance(st, ast.FunctionDef) and any("overload" in ast.unparse(d) for d in st.decorator_list):
+                            continue  # typing stubs
+                        defs[st.name] = st
                     elif isinstance(st, ast.Import):
                         for a in st.names:
                             imports[a.asname or a.name.split(".")[0]] = ("module", a.name if a.asname else a.name.split(".")[0])
@@ -140,6 +142,8 @@ class Program:
             d = t["defs"][name]
             if isinstance(d, ast.FunctionDef):
                 return Func(d, env, self.it)
+            if any(isinstance(b, ast.Name) and (b.id.endswith(("Error", "Exception", "Warning"))) for b in d.bases):
+                return ExcCtor(d.name)  # exception classes are values of the exception model (name + message)
             return self.make_class(d, env)
         if name in t["imports"]:
             return self.resolve_import(t["imports"][name], name)
@@ -202,11 +206,11 @@ class Program:
         if root == "functools":
             return _ModuleNS({"partial": functools.partial, "reduce": functools.reduce, "wraps": NoOp("wraps")})
         if root == "operator":
-            return operator
+            return _ModuleNS({k: v for k, v in vars(operator).items() if not k.startswith("_")})
         if root == "itertools":
             return _ModuleNS({"chain": itertools.chain, "product": itertools.product})
         if root == "re":
-            return re
+            return _ModuleNS({k: getattr(re, k) for k in ("compile", "sub", "match", "fullmatch", "search", "escape", "split", "findall")})
         if root == "dataclasses":
             return _ModuleNS({"dataclass": NoOp("dataclass"), "field": "dataclasses.field"})
         if root in ("warnings", "logging"):
